@@ -89,6 +89,16 @@ OrdOps == Ops \cap {"<", "<=", ">", ">="}
 Chains == {Chain(C(a), o1, V(x), o2, C(b)) : a \in Consts, b \in Consts, x \in Vars, o1 \in OrdOps, o2 \in OrdOps}
           \cup {Chain(V(x), o1, V(y), o2, C(b)) : x \in Vars, y \in Vars, b \in Consts, o1 \in OrdOps, o2 \in OrdOps}
 
+\* comparisons of two constants as operands: an operand whose value is known may only go when it cannot decide the result
+ConstAtoms(d) == {Cmp(C(a), op, C(b)) : a \in Consts, op \in Ops, b \in Consts}
+VarConstAtoms(d) == {Cmp(V(x), op, C(n)) : x \in Vars, op \in Ops, n \in Consts}
+\* (a parameter only so that TLC does not build the sets at start-up when the shape is not asked for)
+ConstOperand(d) ==
+    {Or(<<a, k, b>>) : a \in VarConstAtoms(d), k \in ConstAtoms(d), b \in VarConstAtoms(d)}
+    \cup {And(<<a, k, b>>) : a \in VarConstAtoms(d), k \in ConstAtoms(d), b \in VarConstAtoms(d)}
+    \cup {Or(<<k, a>>) : a \in VarConstAtoms(d), k \in ConstAtoms(d)} \cup {And(<<k, a>>) : a \in VarConstAtoms(d), k \in ConstAtoms(d)}
+    \cup {Or(<<a, k>>) : a \in VarConstAtoms(d), k \in ConstAtoms(d)} \cup {And(<<a, k>>) : a \in VarConstAtoms(d), k \in ConstAtoms(d)}
+
 Space ==
     (IF "atom" \in Shapes THEN Atoms ELSE {})
     \cup (IF "not" \in Shapes THEN {Not(a) : a \in Atoms} ELSE {})
@@ -99,6 +109,7 @@ Space ==
     \cup (IF "chain" \in Shapes THEN Chains \cup {Not(c) : c \in Chains} ELSE {})
     \cup (IF "chain2" \in Shapes THEN {And(<<c, a>>) : c \in Chains, a \in Atoms} \cup {Or(<<a, c>>) : c \in Chains, a \in Atoms} ELSE {})
     \cup (IF "lit2" \in Shapes THEN {And(<<a, b>>) : a \in Lits, b \in Lits} \cup {Or(<<a, b>>) : a \in Lits, b \in Lits} ELSE {})
+    \cup (IF "constop" \in Shapes THEN ConstOperand(0) ELSE {})
     \cup (IF "and3" \in Shapes THEN {And(<<a, b, c>>) : a \in Atoms, b \in Atoms, c \in Atoms} ELSE {})
     \cup (IF "or3" \in Shapes THEN {Or(<<a, b, c>>) : a \in Atoms, b \in Atoms, c \in Atoms} ELSE {})
     \cup (IF "mixed" \in Shapes THEN {And(<<a, Or(<<b, c>>)>>) : a \in Atoms, b \in Atoms, c \in Atoms}
